@@ -5,7 +5,15 @@ impl  = GNUVerDefSection / GNUVerNeedSection / GNUVerSymSection of the real libr
 model = extracted Model/C15GnuVersions.v;  spec = extracted Spec/C15Versions.v (views of the abstract records).
 Record bytes, section headers and the ELF header are produced by the Coq spec encoders through the driver;
 the harness only chooses positions and garbage and copies the bytes there.  The driver's *_section_wf check
-(the hypothesis of the theorems of Props/C15.v, evaluated on the final image) certifies in-domain cases."""
+(the hypothesis of the theorems of Props/C15.v, evaluated on the final image) certifies in-domain cases.
+
+Zero next links: a zero vd_next/vn_next/vda_next/vna_next means "no further record" (the reader stops there since
+/repo eedb89f, a C19 finding).  The layout predicate therefore demands a non-zero link on every record that has a
+successor; the in-domain generator never draws 0 there (the LAST link of a chain stays free: 0 or garbage).  Chains
+with a zero link in front of counted records are separate streams: '<kind>_ended' (sh_info too large, last entry of
+the chain has next = 0; certified by *_section_ended_wf = hypothesis of C15_*_ended_at_zero_link, iter_versions is
+compared with that theorem's value, the other observations with the model) and the 'entloop' / 'auxloop' malformed
+variants (impl vs model only)."""
 import io
 from tools.lib.framework import impl_call
 
@@ -20,12 +28,15 @@ LEVEL = {'text': 'Machine-checked theorems, for ALL images and header tables sat
                  '(record i sits at the offset reached by following the next/aux displacements; anything else in the '
                  'image is free): version-definition and version-requirement walks yield exactly the encoded entries and '
                  'auxiliary chains in link order with names resolved through the linked string table, for any '
-                 'displacements, counts, classes and byte orders; the version-symbol table yields exactly one '
+                 'NON-ZERO next displacements on non-last records (a zero link means "no further record"; the last link '
+                 'of every chain is free), counts, classes and byte orders; when only the count is too large and the '
+                 'chain\'s last entry has a zero link the walk yields exactly the entries up to it; the version-symbol '
+                 'table yields exactly one '
                  '(index incl. hidden bit, symbol name) per dynamic symbol for any table length and stride; get_version '
                  'returns the first entry in link order carrying the index or None; has_indexes (first and memoised call) '
                  'equals "some auxiliary has a non-zero index". Record layouts and the versym Enum table are regenerated '
                  'from the live construct trees and proved equal to the standard tables; the hand model is pinned to the '
-                 'code by a differential correspondence on padded, interleaved, shared and self-linked chains.',
+                 'code by a differential correspondence on padded, interleaved, shared and zero-link-ended chains.',
          'design_ref': '4.15', 'technique': 'Coq proof (generic layout round trip + induction over link chains) + '
                                             'extracted-model correspondence on synthesized ELF images',
          'note': 'Trusted: Coq kernel, ExtrOcamlBasic extraction, harness (image assembly, Container->S-expression '
@@ -34,13 +45,18 @@ LEVEL = {'text': 'Machine-checked theorems, for ALL images and header tables sat
 
 RULE = ('cases: version-definition / version-requirement sections with 0..14 entries of 1..9 auxiliaries placed dense, '
         'with random garbage gaps, or as a random interleaving of all chains (linear extension of the link order), plus '
-        'self-linked last entries (next = 0 counted several times) and auxiliary chains shared between entries; arbitrary '
+        'auxiliary chains shared between entries; next links of non-last records are the (always non-zero) distances, '
+        'the last link of every chain is 0 or garbage; arbitrary '
         'vd_ndx / vna_other incl. 0, duplicates and the hidden bit 0x8000, garbage in every unused displacement; '
+        'an "ended" stream (zero next link on an entry, sh_info claiming 1..40 more entries; certified by the '
+        '*_section_ended_wf predicate, iter_versions compared with the ended_at_zero_link theorem, the rest with the '
+        'model); '
         'version-symbol tables of 0..300 symbols with arbitrary index/hidden bit, reserved values, strides >= entry size; '
         'both classes and byte orders, sections and header table in random file order at unaligned offsets, names 0..130 '
-        'bytes of 1-4 byte UTF-8; plus a malformed stream (zero counts, counts running into garbage, truncated files, '
+        'bytes of 1-4 byte UTF-8; plus a malformed stream (zero counts, counts running into garbage, zero links on '
+        'non-last entries / auxiliaries counted several times, truncated files, '
         'wrong link types, zero entry size) compared impl vs model only. distinct = hash(kind, abstract); non-trivial = '
-        'at least 2 records walked or a malformed case')
+        'at least 2 records walked or a malformed / ended case')
 
 SHT = {'null': 0, 'strtab': 3, 'symtab': 2, 'dynsym': 11, 'verdef': 0x6ffffffd, 'verneed': 0x6ffffffe,
        'versym': 0x6fffffff, 'progbits': 1}
@@ -195,12 +211,8 @@ def _gen_chain_case(rng, kind, big):
         entries[j][-1] = shared
         entries[j][4 if kind == 'verdef' else 2] = aux_off[i][k] - ent_off[j]
         flavour = 'shared'
-    # the last entry links to itself (next = 0) and the section counts it several times
-    if n >= 1 and rng.random() < 0.12:
-        entries[-1][5 if kind == 'verdef' else 3] = 0
-        rep = rng.randint(1, 3)
-        entries += [[(list(map(list, x)) if isinstance(x, list) else x) for x in entries[-1]] for _ in range(rep)]
-        flavour = 'selfloop' if flavour == 'plain' else flavour + '+selfloop'
+    # NOTE: every non-last next link above is a distance between two increasing positions, hence non-zero
+    # (a zero link ends the chain); zero links in front of counted records are made by _end_chain / _malform_chain.
     bg = _garbage(rng, size)
     # queries: every index present, their masked / hidden variants, some absent ones
     present = set()
@@ -231,16 +243,52 @@ def _file_plan(rng, roles):
     return [sec_order, file_order, gaps]
 
 
+def _copy_entries(entries):
+    return [[(list(map(list, x)) if isinstance(x, list) else x) for x in e] for e in entries]
+
+
+def _end_chain(rng, case, kind):
+    """the chain is cut at entry i by a zero next link while sh_info claims more entries (the original ones and/or
+    extra ones): the records behind entry i are not laid out (garbage there), the reader must stop at the zero link.
+    Certified by the driver's *_section_ended_wf."""
+    case = [c for c in case]
+    entries = _copy_entries(case[3])
+    i = rng.randrange(len(entries)) if rng.random() < 0.5 else len(entries) - 1
+    entries = entries[:i + 1]
+    entries[i][5 if kind == 'verdef' else 3] = 0
+    extra = len(case[3]) - len(entries)
+    extra += rng.randint(0 if extra else 1, 3) if rng.random() < 0.85 else rng.randint(4, 40)
+    case[3] = entries
+    case[8] = ['info', extra]
+    case[9] = case[9] + '/ended'
+    return case
+
+
 def _malform_chain(rng, case, kind):
     """derive an out-of-domain variant (error behaviour / garbage walk): impl vs model only"""
     case = [c for c in case]
-    entries = [[(list(map(list, x)) if isinstance(x, list) else x) for x in e] for e in case[3]]
-    what = rng.choice(['cnt0', 'info+', 'cut', 'linktype', 'info-', 'strtab_unterminated'])
+    entries = _copy_entries(case[3])
+    what = rng.choice(['cnt0', 'info+', 'cut', 'linktype', 'info-', 'strtab_unterminated', 'entloop', 'auxloop'])
     if what == 'cnt0' and entries:
         i = rng.randrange(len(entries))
         entries[i][-1] = []
         case[3] = entries
         case[8] = ['cnt0', i]
+    elif what == 'entloop' and entries:
+        # the last entry has next = 0 and is counted several times (abstractly: the same record again)
+        entries[-1][5 if kind == 'verdef' else 3] = 0
+        entries += _copy_entries([entries[-1]] * rng.randint(1, 3))
+        case[3] = entries
+        case[8] = ['entloop']
+    elif what == 'auxloop' and entries:
+        # an auxiliary has next = 0 and its entry's count claims it several times
+        i = rng.randrange(len(entries))
+        auxs = entries[i][-1]
+        j = rng.randrange(len(auxs))
+        auxs[j][1 if kind == 'verdef' else 4] = 0
+        entries[i][-1] = auxs[:j + 1] + [list(auxs[j]) for _ in range(rng.randint(1, 3))]
+        case[3] = entries
+        case[8] = ['auxloop', i]
     elif what == 'info+':
         case[8] = ['info', rng.randint(1, 3)]
     elif what == 'info-' and entries:
@@ -336,6 +384,8 @@ def gen(ctx):
             cases.append((kind, c))
             if rng.random() < 0.15:
                 cases.append((kind + '_malformed', _malform_chain(rng, c, kind)))
+            if c[3] and rng.random() < 0.12:
+                cases.append((kind + '_ended', _end_chain(rng, c, kind)))
     for _ in range(N):
         c = _gen_versym_case(rng, big)
         cases.append(('versym', c))
@@ -786,15 +836,21 @@ def _evaluate(ctx, cases):
             ctx.bump('versym_len', nrec if nrec < 3 else '3-12' if nrec <= 12 else '13-60' if nrec <= 60 else '100+')
             ctx.bump('versym_strides', '%d/%d' % (c[4], c[5] - (24 if c[1] else 16)))
         malformed = kind.endswith('_malformed')
+        ended = kind.endswith('_ended')
         in_domain = wf and not malformed
+        if ended:
+            # inside the quantifier of C15_<base>_ended_at_zero_link: that theorem speaks about iter_versions only
+            # (its value is the same view list, ans[2]); every other observation is compared with the model
+            in_domain = fits and ans[7 if base == 'verdef' else 9] == 1
+            spec = [spec[0]] + model[1:]
         ctx.bump('class/order', ('64' if c[1] else '32') + ('LE' if c[0] else 'BE'))
         ctx.bump('in_domain', kind + ':' + str(in_domain))
-        if not malformed and not wf:
+        if not malformed and not in_domain:
             ctx.bump('generator_left_domain', kind)
         impl_c, spec_c = sx.canon(impl), sx.canon(spec)
         comp = _first_diff(names, impl_c, spec_c if in_domain else sx.canon(model))
         ctx.record(kind, c, impl=impl, spec=spec if in_domain else model, model=model, in_domain=in_domain,
-                   nontrivial=(nrec >= 2 or malformed), key='%s/%s' % (base, comp or 'agree'))
+                   nontrivial=(nrec >= 2 or malformed or ended), key='%s/%s' % (base, comp or 'agree'))
 
 
 def _fixed_garbage(n):
